@@ -31,48 +31,84 @@ def _mutating(n):
 
 
 def r1_staged_publication(repo=None):
+    """Roles, on mirror_to_dest with its private helpers inlined: the staging call self.mirror_fun(src, T), the publishing
+    os.rename(T, D); T must be join(dir(D), 'tmp.' + name(D)); every other file-system operation must be makedirs(dir(D)) or
+    rmdir(dir(src))."""
     r = Rule("C17.R1", "a file reaches its final destination name only by rename of a complete staged tmp. copy (must-pass + rx)")
     m = pyfront.mod("mirror", repo)
     q = HD + ".mirror_to_dest"
-    f = m.fn(q)
-    g = m.cfg(q)
-    tmpdef = [n for n in ast.walk(f) if isinstance(n, ast.Assign) and norm(ast.unparse(n.targets[0])) == "tmp_dest_path"]
-    if len(tmpdef) != 1:
-        raise AnalysisError("%s: tmp_dest_path definition not found" % q)
-    v = tmpdef[0].value
+    fvw = m.flat(q)
+    f = fvw.fn()
+    g = fvw.cfg()
+    srcp = f.args.args[1].arg if len(f.args.args) > 1 else None
+    if srcp is None:
+        raise AnalysisError("%s: source path parameter not found" % q)
+    stage_calls = [c for c in ast.walk(f) if isinstance(c, ast.Call) and pyfront.call_name(c) == "self.mirror_fun"]
+    renames = [c for c in ast.walk(f) if isinstance(c, ast.Call) and pyfront.call_name(c) in ("os.rename", "os.replace")]
+
+    def single_def(name):
+        ds = [n for n in ast.walk(f) if isinstance(n, ast.Assign) and any(
+            isinstance(t, ast.Name) and t.id == name for t in n.targets)]
+        return ds[0].value if len(ds) == 1 else None
+
+    def dir_and_name_of(path_name):
+        """names bound to (directory, base name) of the path variable"""
+        dirs, names = set(), set()
+        for n in ast.walk(f):
+            if isinstance(n, ast.Assign) and isinstance(n.value, ast.Call) and n.value.args and isinstance(n.value.args[0], ast.Name) \
+                    and n.value.args[0].id == path_name:
+                cn = pyfront.call_name(n.value)
+                t = n.targets[0]
+                if cn == "os.path.split" and isinstance(t, ast.Tuple) and len(t.elts) == 2:
+                    if isinstance(t.elts[0], ast.Name):
+                        dirs.add(t.elts[0].id)
+                    if isinstance(t.elts[1], ast.Name):
+                        names.add(t.elts[1].id)
+                elif cn == "os.path.dirname" and isinstance(t, ast.Name):
+                    dirs.add(t.id)
+                elif cn == "os.path.basename" and isinstance(t, ast.Name):
+                    names.add(t.id)
+        return dirs, names
+    tvar = destp = None
+    if len(stage_calls) == 1 and len(stage_calls[0].args) == 2 and isinstance(stage_calls[0].args[1], ast.Name):
+        tvar = stage_calls[0].args[1].id
+    if len(renames) == 1 and len(renames[0].args) == 2 and isinstance(renames[0].args[1], ast.Name):
+        destp = renames[0].args[1].id
+    if tvar is None or destp is None:
+        r.violation(m.rel, q, "%d staging calls / %d publishing renames" % (len(stage_calls), len(renames)), "the stage-then-rename pair is "
+                    "missing", line=f.lineno)
+        return r
+    ddirs, dnames = dir_and_name_of(destp)
+    sdirs, _ = dir_and_name_of(srcp)
+    v = single_def(tvar)
     prefix = None
+    shape = False
     if isinstance(v, ast.Call) and pyfront.call_name(v) == "os.path.join" and len(v.args) == 2 and isinstance(v.args[1], ast.BinOp) \
             and isinstance(v.args[1].op, ast.Add):
         try:
             prefix = cfold.Folder(repo).expr("mirror", v.args[1].left)
         except AnalysisError:
             prefix = None
-    # dest_dir, dest_name = os.path.split(dest_path): the two parts used must be those of one split of the destination path
-    split = [n for n in ast.walk(f) if isinstance(n, ast.Assign) and isinstance(n.value, ast.Call) and pyfront.call_name(n.value) == "os.path.split"
-             and isinstance(n.targets[0], ast.Tuple) and len(n.targets[0].elts) == 2]
-    parts = [norm(ast.unparse(e)) for e in split[0].targets[0].elts] if split else [None, None]
-    ok = prefix == "tmp." and norm(ast.unparse(v.args[0])) == parts[0] and norm(ast.unparse(v.args[1].right)) == parts[1]
-    if ok:
-        r.ok("%s:%s %s" % (m.rel, tmpdef[0].lineno, q), "staging path = <destination directory> / ('tmp.' + <destination name>)")
+        shape = isinstance(v.args[0], ast.Name) and v.args[0].id in ddirs and isinstance(v.args[1].right, ast.Name) \
+            and v.args[1].right.id in dnames
+    tdef = [n for n in ast.walk(f) if isinstance(n, ast.Assign) and any(isinstance(t, ast.Name) and t.id == tvar for t in n.targets)]
+    if prefix == "tmp." and shape:
+        r.ok("%s:%s %s" % (m.rel, tdef[0].lineno, q), "staging path = <destination directory> / ('tmp.' + <destination name>)")
     else:
-        r.violation(m.rel, q, norm(ast.unparse(tmpdef[0])), "the staging name is not the destination name with the literal prefix `tmp.`: "
-                    "readers/listings of the destination could see the partial copy", line=tmpdef[0].lineno)
-    srcp = f.args.args[1].arg if len(f.args.args) > 1 else "src_path"
-    destp = norm(ast.unparse(split[0].value.args[0])) if split else "dest_path"
-    srcdirs = {norm(ast.unparse(n.targets[0].elts[0])) for n in ast.walk(f) if isinstance(n, ast.Assign) and isinstance(n.value, ast.Call)
-               and pyfront.call_name(n.value) == "os.path.split" and norm(ast.unparse(n.value.args[0])) == srcp
-               and isinstance(n.targets[0], ast.Tuple)}
-    allowed = {("self.mirror_fun", (srcp, "tmp_dest_path")), ("os.rename", ("tmp_dest_path", destp)), ("os.makedirs", (parts[0],))}
-    allowed |= {("os.rmdir", (d_,)) for d_ in srcdirs}
+        r.violation(m.rel, q, norm(ast.unparse(tdef[0])) if tdef else "staging path `%s`" % tvar, "the staging name is not the destination "
+                    "name with the literal prefix `tmp.`: readers/listings of the destination could see the partial copy",
+                    line=tdef[0].lineno if tdef else f.lineno)
     stage = []
     publish = []
     for n in g.nodes:
         for c, d in _mutating(n):
             args = tuple(norm(ast.unparse(a)) for a in c.args)
-            if (d, args) in allowed:
+            ok_op = (d == "self.mirror_fun" and args == (srcp, tvar)) or (d in ("os.rename", "os.replace") and args == (tvar, destp)) \
+                or (d == "os.makedirs" and len(args) >= 1 and args[0] in ddirs) or (d == "os.rmdir" and len(args) == 1 and args[0] in sdirs)
+            if ok_op:
                 if d == "self.mirror_fun":
                     stage.append(n)
-                elif d == "os.rename":
+                elif d in ("os.rename", "os.replace"):
                     publish.append(n)
                 r.ok("%s:%s %s `%s`" % (m.rel, c.lineno, q, norm(ast.unparse(c))), "expected file-system operation of the mirror step")
             else:
@@ -104,14 +140,17 @@ def r2_errors_contained(repo=None):
     r = Rule("C17.R2", "stale, late and duplicate events are contained (errors of the mirror step are caught)")
     m = pyfront.mod("mirror", repo)
     q = HD + ".mirror_to_dest"
-    f = m.fn(q)
+    fvw = m.flat(q)
+    f = fvw.fn()
     n_mut = 0
     for c in pyfront.walk_no_nested(f):
         if isinstance(c, ast.Call) and ((pyfront.call_name(c) or "") in pycalls.MUTATORS or pyfront.call_name(c) == "self.mirror_fun"
                                         or pyfront.call_name(c) == "filecmp.cmp"):
             n_mut += 1
-            tr = m.enclosing(c, (ast.Try,))
+            tr = fvw.enclosing(c, (ast.Try,))
             ok = False
+            while tr is not None and not any(c in list(ast.walk(s)) for s in tr.body):
+                tr = fvw.enclosing(tr, (ast.Try,))
             if tr is not None and any(c in list(ast.walk(s)) for s in tr.body):
                 for h in tr.handlers:
                     names = [pyfront.dotted(h.type)] if h.type is not None and not isinstance(h.type, ast.Tuple) else (
@@ -155,14 +194,19 @@ def config_table(repo=None):
                 consts[st.targets[0].id] = [e.value for e in v.elts]
             elif isinstance(v, ast.Constant):
                 consts[st.targets[0].id] = v.value
-    methods = {k: v for k, v in m.methods(MI).items() if k.startswith("_") and k not in ("__init__", "_init_observer")}
+    # private helpers of the constructor are evaluated abstractly, except those that start the observer
+    def starts_observer(fn_):
+        return any(isinstance(c, ast.Call) and (pyfront.call_name(c) or "").endswith("DirWatcher") for c in ast.walk(fn_))
+    methods = {k: v for k, v in m.methods(MI).items() if k.startswith("_") and k != "__init__" and not starts_observer(v)}
+    observer_helpers = {"self." + k for k, v in m.methods(MI).items() if starts_observer(v) and k != "__init__"}
     rows = {}
     for method, idrf, idmd, link in itertools.product(("move", "copy", "link"), (True, False), (True, False), (True, False)):
         it = dtable.Interp({"src": "S", "dest": "D", "method": method, "ignore_existing": False, "link": link, "verbose": False,
                             "starttime": None, "endtime": None, "include_drf": idrf, "include_dmd": idmd, "force_polling": False},
                            consts=consts, methods=methods)
         it.record = {"DigitalRFMirrorHandler", "ringbuffer.DigitalRFRingbufferHandler"}
-        it.run(body, stop_at=lambda s: isinstance(s, ast.Expr) and isinstance(s.value, ast.Call) and pyfront.call_name(s.value) == "self._init_observer")
+        it.run(body, stop_at=lambda s: (isinstance(s, ast.Expr) and isinstance(s.value, ast.Call) and pyfront.call_name(s.value) in observer_helpers)
+               or any(isinstance(c, ast.Call) and (pyfront.call_name(c) or "").endswith("DirWatcher") for c in ast.walk(s)))
         rows[(method, idrf, idmd, link)] = (it.built, it.raised, dict(it.env))
     return m, f, rows
 
@@ -197,7 +241,7 @@ def r3_handler_configuration(repo=None):
             if not (kw.get("include_drf") is True and kw.get("include_dmd") is False and kw.get("include_drf_properties") is False
                     and kw.get("include_dmd_properties") is False):
                 probs.append("the moving handler also matches metadata or properties files (%s): they would disappear from the source" % {
-                    k: v for k, v in kw.items() if k.startswith("include")})
+                    k: v for k, v in kw.items() if k and k.startswith("include")})
         if eff_method == "move" and idrf and len(movers) != 1:
             probs.append("move mode without exactly one moving RF handler")
         if eff_method != "move" and movers:
@@ -209,7 +253,7 @@ def r3_handler_configuration(repo=None):
             kw = copiers[0][1]
             if kw.get("include_drf_properties") is not idrf or kw.get("include_dmd_properties") is not idmd or kw.get("include_dmd") is not idmd:
                 probs.append("properties/metadata of the included kinds are not copied (copy handler flags %s)" % {
-                    k: v for k, v in kw.items() if k.startswith("include")})
+                    k: v for k, v in kw.items() if k and k.startswith("include")})
             if fun(kw) not in ("shutil.copy2", "LinkWithFallback()", "_LinkWithFallback()", "copylike_mirror_fun"):
                 probs.append("copy handler uses %s (expected shutil.copy2 or the hard-link-with-fallback function)" % fun(kw))
             if str(fun(kw)).endswith("LinkWithFallback()") and env.get("self.link") is not True:
@@ -240,8 +284,9 @@ def r4_replay_existing(repo=None):
     r = Rule("C17.R4", "files that already exist are replayed through the same handlers")
     m = pyfront.mod("mirror", repo)
     q = MI + ".start"
-    f = m.fn(q)
-    scope = [f] + [h for h, c, b in pyutil.local_helpers(m, f, depth=1)]
+    fvw = m.flat(q)
+    f = fvw.fn()
+    scope = [f] + [h for h, c, b in pyutil.local_helpers(m, m.fn(q), depth=1) if h.name not in fvw.inlined]
     # a loop over self.event_handlers that dispatches a FileCreatedEvent with match_time=False
     disp = []
     for fn in scope:
@@ -256,10 +301,10 @@ def r4_replay_existing(repo=None):
     for fn, lp, c in disp:
         mt = pyfront.kwarg(c, "match_time")
         if pyfront.const(mt) is False:
-            r.ok("%s:%s %s" % (m.rel, c.lineno, m.qualname_of(c)), "every handler receives the created event with match_time=False (the "
+            r.ok("%s:%s %s" % (m.rel, c.lineno, q), "every handler receives the created event with match_time=False (the "
                  "listing already applied the window, including the forward-fill file)")
         else:
-            r.violation(m.rel, m.qualname_of(c), norm(ast.unparse(c)), "replayed events are filtered by time again: the forward-fill metadata "
+            r.violation(m.rel, q, norm(ast.unparse(c)), "replayed events are filtered by time again: the forward-fill metadata "
                         "file that the listing selected (older than the start time) would be dropped", line=c.lineno)
     calls = [c for c in ast.walk(f) if isinstance(c, ast.Call) and pyfront.call_name(c) == "list_drf.ilsdrf"]
     kinds_ok = False
@@ -278,16 +323,20 @@ def r4_replay_existing(repo=None):
     else:
         r.violation(m.rel, q, "listing for replay (data kinds/window ok=%s, properties ok=%s)" % (kinds_ok, props_ok),
                     "files that existed before the mirror started are not selected with the mirror's own kinds and window", line=f.lineno)
-    io = m.fn(MI + "._init_observer")
+    ios = [v_ for k_, v_ in m.methods(MI).items() if any(isinstance(c, ast.Call) and isinstance(c.func, ast.Attribute)
+           and c.func.attr == "schedule" for c in ast.walk(v_))]
+    if len(ios) != 1:
+        raise AnalysisError("%s: method scheduling the handlers on the observer not found exactly once" % MI)
+    io = ios[0]
     sched = [c for lp in ast.walk(io) if isinstance(lp, ast.For) and norm(ast.unparse(lp.iter)) == "self.event_handlers"
              for c in ast.walk(lp) if isinstance(c, ast.Call) and isinstance(c.func, ast.Attribute) and c.func.attr == "schedule"
              and c.args and isinstance(c.args[0], ast.Name) and isinstance(lp.target, ast.Name) and c.args[0].id == lp.target.id]
     if sched and pyfront.const(pyfront.kwarg(sched[0], "recursive")) is True and len(sched[0].args) >= 2 and norm(ast.unparse(sched[0].args[1])) == "self.src":
-        r.ok("%s %s._init_observer" % (m.rel, MI), "every handler is scheduled recursively on the source tree")
+        r.ok("%s %s.%s" % (m.rel, MI, io.name), "every handler is scheduled recursively on the source tree")
     elif not sched:
-        raise AnalysisError("%s._init_observer: scheduling loop over self.event_handlers not recognised" % MI)
+        raise AnalysisError("%s.%s: scheduling loop over self.event_handlers not recognised" % (MI, io.name))
     else:
-        r.violation(m.rel, MI + "._init_observer", norm(ast.unparse(sched[0])), "a handler is not attached recursively to the source tree",
+        r.violation(m.rel, MI + "." + io.name, norm(ast.unparse(sched[0])), "a handler is not attached recursively to the source tree",
                     line=sched[0].lineno)
     r.guard(3)
     return r
